@@ -11,8 +11,60 @@ SPEC = dict(
     harness="c02.cpp",
     translators=[typecodes_translator],
     theorems=[
+        "SymVerif.C02.cmp_range",
+        "SymVerif.C02.cmp_eq_iff_partial",
+        "SymVerif.C02.cmp_antisymm_partial",
+        "SymVerif.C02.cmp_zero_imp_identical",
+        "SymVerif.C02.cmp_trans_partial",
+        "SymVerif.C02.cmp_trans_le_partial",
+        "SymVerif.C02.keyLess_irrefl_partial",
+        "SymVerif.C02.keyLess_asymm_partial",
+        "SymVerif.C02.keyLess_trans_partial",
+        "SymVerif.C02.keyLess_incomparable_iff_eq_partial",
+        "SymVerif.C02.insertSorted_perm_invariant",
+        "SymVerif.C02.insertSorted_sorted",
+        "SymVerif.C02.d3_witness",
+        "SymVerif.C02.d1_witness",
+        "SymVerif.C02.C02_full_false",
+        "SymVerif.Expr.builtin_kind_none",
+        "SymVerif.Expr.builtinCodes_nodup",
+        "SymVerif.Expr.table_codes_nodup",
     ],
-    rule="",
-    not_covered=[],
-    assumptions=[],
+    partial=[
+        dict(full="SymVerif.C02.C02_full", proved="cmp_eq_iff_partial, cmp_antisymm_partial, cmp_trans_partial, "
+             "keyLess_*_partial, insertSorted_perm_invariant (cmp_range holds without exclusions)",
+             excluded="noNaN (a NaN double anywhere: defect D3, negation proved in d3_witness / C02_full_false) and "
+                      "noSignedZero (a double -0.0 anywhere: consequence of D1, negation proved in d1_witness)"),
+    ],
+    rule="ops: `cmp a b`, `less a b` (RCPBasicKeyLess), `sort e1..en` (set_basic iteration order as operand "
+         "indices) on canonical dumps of real expressions built through the public API, compared with the Lean "
+         "model; `ouniv seed n mode` rebuilds a universe of n expressions through the API and checks on the real "
+         "objects: all pairs (range, cmp==0 <=> eq, antisymmetry, eq symmetric), all triples of the first 260 "
+         "(transitivity), set_basic filled in three insertion orders (same iteration order, one element per "
+         "eq-class). distinct = distinct op lines; non-trivial = all; tags: cmp-same-<class> (same type code, "
+         "2/3 of the pairs), cmp-mixed-<class>, sort, ouniv-<mode>.",
+    not_covered=[
+        "classes outside the model (oracle only, no theorem): Dummy, Derivative, Subs, Piecewise, ConditionSet, "
+        "ImageSet, FunctionWrapper, NumberWrapper, Tuple, polynomial classes, series, matrix expressions (new defect C02-matexpr-compare: "
+        "their compare() calls arg->compare() and mis-casts mixed Integer/Symbol sizes), RealMPFR/ComplexMPC",
+        "Intersection and Complement: modelled and proved about, no correspondence ops (harness/sexp.h cannot "
+        "rebuild them)",
+        "NaN doubles nested inside ordered containers (insertion-history dependent order, D3); top-level NaN "
+        "doubles are in the correspondence",
+        "Rational::compare's Integer branch (unreachable through __cmp__), Infty directions that are not Integers",
+        "std::map / std::set red-black tree internals: the model is the sorted sequence, insertion = insertion "
+        "sort; equal as long as RCPBasicKeyLess is a strict weak order on the keys (proved for the fragment)",
+    ],
+    assumptions=[
+        "std::string operator< is lexicographic on unsigned bytes = Lean String `<` on code points (UTF-8 order "
+        "preserving); names are valid UTF-8",
+        "IEEE-754 binary64 == and < on non-NaN values = comparison of the sign-magnitude integer key (dblKey)",
+    ],
+    level_text="machine-checked proof (Lean 4) of the order axioms on the executable model for all well-formed "
+               "expressions without NaN / -0.0 doubles; exact correspondence of the model with __cmp__, "
+               "RCPBasicKeyLess and set_basic iteration order",
+    technique="Lean 4 model mirroring every compare() + structural-induction proofs (antisymmetry, cmp=0 <=> eq, "
+              "transitivity, strict weak order, permutation invariance of sorted insertion); translator for the "
+              "TypeID numbering and class kinds; differential testing; exhaustive pair/triple oracle over "
+              "API-built universes",
 )
